@@ -1,17 +1,249 @@
-//! C13 — stub (monitor not written yet)
-use serde_json::Value;
+//! C13 — all built-in type parameters behave identically.
+//!
+//! N-version differential monitor: the same string parsed as `GenericPurl<String>` and
+//! `GenericPurl<SmallString>`; the same builder history (including invalid and odd-case type
+//! strings) run with `String`, `Cow::Borrowed`, `Cow::Owned`, `SmallString`. `String` is the
+//! reference; any difference in Ok/Err, accessors or canonical string is a violation.
 
-use super::Fail;
-use crate::obs::{Ctx, Tier};
+use std::borrow::Cow;
+use std::fmt::Debug;
 
-pub const RULE: &str = "";
+use purl::{PurlShape, SmallString};
+use serde_json::{json, Value};
 
-pub fn requirements(_tier: Tier) -> Vec<(&'static str, u64)> {
-    vec![("not-implemented", 1)]
+use super::{str_field, Fail};
+use crate::exec::{self, run_hist};
+use crate::gen;
+use crate::hist::{self, Hist};
+use crate::obs::{self, Ctx, Out, Snap, Tier};
+use crate::rng::fnv;
+use crate::shrink::{shrink_str, shrink_vec};
+use crate::spell;
+
+pub const RULE: &str = "a case is one input string (parser: String vs SmallString) or one builder history (String vs Cow::Borrowed vs Cow::Owned vs SmallString); non-trivial = the reference accepts it, or refuses it because of the type string; distinct by hash of the input / history";
+
+pub fn requirements(tier: Tier) -> Vec<(&'static str, u64)> {
+    let q = tier == Tier::Quick;
+    vec![
+        ("parser-comparisons", if q { 1_000_000 } else { 10_000_000 }),
+        ("parser-comparisons:both-accept", 100_000),
+        ("builder-comparisons", if q { 300_000 } else { 5_000_000 }),
+        ("builder:type-invalid", 10_000),
+        ("builder:type-needs-lowercasing", 10_000),
+        ("builder:type-longer-than-23-bytes", 1_000),
+        ("builder:type-empty", 100),
+        ("builder:accepted", 50_000),
+    ]
 }
 
-pub fn run(_ctx: &mut Ctx) {}
+type Outcome = Out<(Snap, String)>;
 
-pub fn replay(_monitor: &str, _case: &Value) -> Result<Option<Fail>, String> {
-    Err("not implemented".into())
+fn parse_outcome<T>(s: &str) -> Outcome
+where
+    T: std::str::FromStr + PurlShape,
+    <T as PurlShape>::Error: From<<T as std::str::FromStr>::Err> + Debug,
+{
+    match obs::parse::<T>(s) {
+        Out::Ok(p) => match obs::show(&p) {
+            Out::Ok(c) => Out::Ok((Snap::of(&p), c)),
+            Out::Err(e) => Out::Err(e),
+            Out::Panic(m) => Out::Panic(m),
+        },
+        Out::Err(e) => Out::Err(e),
+        Out::Panic(m) => Out::Panic(m),
+    }
+}
+
+pub fn judge_parse(s: &str) -> (bool, Option<Fail>) {
+    let a = parse_outcome::<String>(s);
+    let b = parse_outcome::<SmallString>(s);
+    let ok = a.is_ok();
+    if a != b {
+        let tag = match (&a, &b) {
+            (Out::Ok(_), Out::Ok(_)) => "value",
+            (Out::Ok(_), _) | (_, Out::Ok(_)) => "acceptance",
+            _ => "error",
+        };
+        return (ok, Some(Fail::tagged("parser-differs", tag, format!("{s:?}: GenericPurl<String> gives {a:?}, GenericPurl<SmallString> gives {b:?}"))));
+    }
+    (ok, None)
+}
+
+/// (setter outcomes, build outcome)
+fn hist_outcome<'a, T>(h: &'a Hist, mk: &dyn Fn(&'a str) -> Option<T>) -> Option<(Vec<(usize, Out<()>)>, Outcome)>
+where
+    T: PurlShape + Clone,
+    T::Error: Debug,
+{
+    let run = run_hist(h, mk)?;
+    if let Some(p) = run.panic {
+        return Some((run.setters, Out::Panic(p)));
+    }
+    let out = match obs::build(run.builder?) {
+        Out::Ok(p) => match obs::show(&p) {
+            Out::Ok(c) => Out::Ok((Snap::of(&p), c)),
+            Out::Err(e) => Out::Err(e),
+            Out::Panic(m) => Out::Panic(m),
+        },
+        Out::Err(e) => Out::Err(e),
+        Out::Panic(m) => Out::Panic(m),
+    };
+    Some((run.setters, out))
+}
+
+pub fn judge_hist(h: &Hist) -> (Option<Outcome>, Option<Fail>) {
+    let Some(reference) = hist_outcome::<String>(h, &exec::mk_string) else { return (None, None) };
+    let others: [(&str, Option<(Vec<(usize, Out<()>)>, Outcome)>); 3] = [
+        ("Cow::Borrowed", hist_outcome::<Cow<str>>(h, &exec::mk_cow_borrowed)),
+        ("Cow::Owned", hist_outcome::<Cow<str>>(h, &exec::mk_cow_owned)),
+        ("SmallString", hist_outcome::<SmallString>(h, &exec::mk_small)),
+    ];
+    for (tp, o) in others {
+        let Some(o) = o else { continue };
+        if o != reference {
+            let tag = match (&reference.1, &o.1) {
+                (Out::Ok(_), Out::Ok(_)) => "value",
+                (Out::Ok(_), _) | (_, Out::Ok(_)) => "acceptance",
+                (a, b) if a != b => "error",
+                _ => "setter",
+            };
+            return (
+                Some(reference.1.clone()),
+                Some(Fail::tagged("builder-differs", format!("{tp}:{tag}"), format!("history {h:?}: String gives {:?}, {tp} gives {:?}", reference, o))),
+            );
+        }
+    }
+    (Some(reference.1), None)
+}
+
+fn parse_case(ctx: &mut Ctx, s: &str) {
+    ctx.st.evaluations += 1;
+    ctx.st.count("parser-comparisons");
+    let (ok, f) = judge_parse(s);
+    if ok {
+        ctx.st.count("parser-comparisons:both-accept");
+        ctx.st.nontrivial(fnv(s.as_bytes()));
+    }
+    if let Some(f) = f {
+        let (kind, tag) = (f.kind.clone(), f.tag.clone());
+        let min = shrink_str(s, &mut |c| judge_parse(c).1.map_or(false, |g| g.kind == kind && g.tag == tag));
+        let g = judge_parse(&min).1.unwrap_or(f);
+        ctx.st.violation("C13.differential", g.signature("C13.differential", &min), g.detail, json!({"kind": "parse", "input": min}));
+    }
+}
+
+fn hist_case(ctx: &mut Ctx, h: &Hist) {
+    ctx.st.evaluations += 1;
+    ctx.st.count("builder-comparisons");
+    // which type string is in force at build()?
+    let last_ty = h
+        .calls
+        .iter()
+        .rev()
+        .find_map(|c| match c {
+            hist::Call::Type(t) | hist::Call::PartsType(t) => Some(t.as_str()),
+            _ => None,
+        })
+        .unwrap_or(&h.ty);
+    if !crate::model::type_chars_ok(last_ty) {
+        ctx.st.count("builder:type-invalid");
+        if last_ty.is_empty() {
+            ctx.st.count("builder:type-empty");
+        }
+    } else if last_ty.bytes().any(|b| b.is_ascii_uppercase()) {
+        ctx.st.count("builder:type-needs-lowercasing");
+    }
+    if last_ty.len() > 23 {
+        ctx.st.count("builder:type-longer-than-23-bytes");
+    }
+    let (o, f) = judge_hist(h);
+    if let Some(o) = o {
+        if o.is_ok() {
+            ctx.st.count("builder:accepted");
+        }
+        if o.is_ok() || !crate::model::type_chars_ok(last_ty) {
+            ctx.st.nontrivial(fnv(format!("{h:?}").as_bytes()));
+        }
+        ctx.st.sample(|| json!({"history": h, "all_four_type_parameters": o.kind()}));
+    }
+    if let Some(f) = f {
+        let (kind, tag) = (f.kind.clone(), f.tag.clone());
+        let calls = shrink_vec(&h.calls, &mut |cs| {
+            let hh = Hist { ty: h.ty.clone(), name: h.name.clone(), calls: cs.to_vec() };
+            judge_hist(&hh).1.map_or(false, |g| g.kind == kind && g.tag == tag)
+        });
+        let hh = Hist { ty: h.ty.clone(), name: h.name.clone(), calls };
+        let g = judge_hist(&hh).1.unwrap_or(f);
+        ctx.st.violation("C13.differential", format!("C13.differential:{}:{}", g.kind, g.tag), g.detail, json!({"kind": "build", "history": hh}));
+    }
+}
+
+const TYPE_UNIVERSE: &[&str] = &[
+    "t", "T", "tT", "t1", "T+", "a.b-c", "1t", "", "!", "t/", "é", "T%41", "É", "t t", "T\0", "-", "+.", "averyveryverylongtypename.x", "AVERYVERYVERYLONGTYPENAME+X",
+    "averyveryverylongtypename!", "ǅ", "K", "\u{212A}", "t\u{301}",
+];
+
+pub fn run(ctx: &mut Ctx) {
+    // parser: complete token language, legal spellings, mutated corpus
+    let (w, n, quick) = (ctx.worker, ctx.nworkers, ctx.quick());
+    {
+        let mut f = |_i: u64, s: &str| parse_case(ctx, s);
+        let (total, name) = gen::for_each_g1(quick, w, n, &mut f);
+        if ctx.worker == 0 {
+            ctx.st.exhaustive.push(json!({"name": format!("{name}: String vs SmallString"), "size": total, "completed": true}));
+        }
+    }
+    let mut r = ctx.rng("c13.g2");
+    for _ in 0..ctx.share(150_000, 4_000_000) {
+        let t = spell::gen_tuple(&mut r, false);
+        let mask = spell::random_mask(&mut r);
+        let s = spell::spell(&mut r, &t, mask).assemble();
+        parse_case(ctx, &s);
+    }
+    let (corpus, _) = gen::load_corpus();
+    let mut r = ctx.rng("c13.g10");
+    for _ in 0..ctx.share(200_000, 6_000_000) {
+        let s = gen::mutate(&mut r, &corpus);
+        parse_case(ctx, &s);
+    }
+    // builder: the type universe x short histories (complete), then random histories
+    let calls = hist::universe_calls(false);
+    let mut idx = 0u64;
+    for ty in TYPE_UNIVERSE {
+        for name in ["n", ""] {
+            for c in std::iter::once(None).chain(calls.iter().map(Some)) {
+                idx += 1;
+                if !ctx.mine(idx) {
+                    continue;
+                }
+                let h = Hist { ty: ty.to_string(), name: name.to_string(), calls: c.into_iter().cloned().collect() };
+                hist_case(ctx, &h);
+            }
+        }
+    }
+    if ctx.worker == 0 {
+        ctx.st.exhaustive.push(json!({"name": format!("{} type strings x {{name, empty name}} x (no call | each of {} call forms), 4 type parameters", TYPE_UNIVERSE.len(), calls.len()), "size": idx, "completed": true}));
+    }
+    let mut r = ctx.rng("c13.g4");
+    for _ in 0..ctx.share(300_000, 8_000_000) {
+        let mut h = hist::rand_hist(&mut r, false);
+        match r.below(6) {
+            0 => h.ty = r.pick(TYPE_UNIVERSE).to_string(),
+            1 => h.ty = gen::mixed_string(&mut r, 0, 30, 30),
+            2 => h.ty = spell::gen_type(&mut r).to_uppercase(),
+            _ => {},
+        }
+        hist_case(ctx, &h);
+    }
+}
+
+pub fn replay(_monitor: &str, case: &Value) -> Result<Option<Fail>, String> {
+    match str_field(case, "kind")? {
+        "parse" => Ok(judge_parse(str_field(case, "input")?).1),
+        "build" => {
+            let h: Hist = serde_json::from_value(case.get("history").cloned().unwrap_or(Value::Null)).map_err(|e| e.to_string())?;
+            Ok(judge_hist(&h).1)
+        },
+        o => Err(format!("unknown case kind {o}")),
+    }
 }
